@@ -335,6 +335,21 @@ Proof.
   - cbn [sp_step fst]. rewrite sp_lookup_put. rewrite Z.max_l by lia. reflexivity.
 Qed.
 
+(* SetTimer on a key that is pending REPLACES: the stored value becomes the new one, the
+   due tick is counted from this call, the old value and the old due tick are forgotten *)
+Theorem set_on_live_key n i pre k v0 v d a :
+  1 <= n -> 1 <= i -> i <= d ->
+  pending (final (init n i) pre) k = Some v0 ->
+  forallb (fun o => negb (touches k o)) a = true ->
+  pending (final (init n i) (pre ++ [OSet k v d])) k = Some v /\
+  kfilter k (concat (run (final (init n i) (pre ++ [OSet k v d])) a)) =
+  (if d / i <=? ticks a then [(k, v)] else []).
+Proof.
+  intros Hn Hi Hd _ Ha. split; [|apply set_fires_once; assumption].
+  apply pending_abs. exists (Z.max d i / i). rewrite reach_abs by assumption.
+  rewrite sp_final_app. cbn [sp_final sp_step fst]. apply sp_lookup_put.
+Qed.
+
 Theorem move_fires_once n i pre k v d a :
   1 <= n -> 1 <= i -> i <= d ->
   pending (final (init n i) pre) k = Some v ->
